@@ -155,9 +155,10 @@ pub fn stall_schedule(max_len: usize) -> BoxedStrategy<Schedule> {
 /// progress, and then finishes the call on what it had read before
 pub fn stall_call_schedule(max_len: usize, kinds: &'static [u8]) -> BoxedStrategy<Schedule> {
     (
-        prop_oneof![3 => Just(1u8), 3 => Just(2u8), 4 => 3u8..=8u8],
+        prop_oneof![2 => Just(1u8), 2 => Just(2u8), 3 => Just(3u8), 3 => Just(4u8), 2 => 5u8..=8u8],
         0..kinds.len(),
-        0u8..48,
+        // the windows between "read" and "use" are mostly among the first points of a call
+        prop_oneof![3 => 0u8..10, 1 => 10u8..48],
         prop_oneof![Just(223u8), Just(247u8)],
         vec(any::<u8>(), 0..max_len),
         hold_len(),
@@ -784,7 +785,7 @@ pub fn addstream_plan() -> BoxedStrategy<AddStreamPlan> {
             prop_oneof![3 => Just(None), 1 => (0u8..3, any::<bool>()).prop_map(Some)],
             // one case in four: a thread is held at one of the first points of its add_stream call
             // while everybody else runs on (after round-6 seed C01-6)
-            prop_oneof![3 => schedule(500), 1 => stall_call_schedule(500, &[14])],
+            prop_oneof![2 => schedule(500), 1 => stall_call_schedule(500, &[14])],
         ),
     )
         .prop_map(|(q, prefill, producers, parent_handles, pre_recv, adder_single, sibling_pre, other_stream, hows, second_add, side_adds, (lonely, sched))| AddStreamPlan {
